@@ -419,6 +419,104 @@ Fixpoint crun (c : cstate) (l : list cev) : cstate * list obs :=
 
 Definition cinit (s : sstate) : cstate := CState s (Flight None 0 None) (fun _ => PIdle).
 
+(** ** Part 3: setLocalHead is NOT atomic in the code.
+    It first appends to the store and compares the store head with the new head
+    ([slh_check]), and only then, without any lock spanning both, calls
+    pending.Add ([slh_add]).  Between the two the sync loop and other calls run.
+    This layer adds exactly that split on top of the thread machine, for the two
+    call sites that matter: the gossip verifier (which holds incomingMu while it
+    is parked between the two halves) and networkHead's own setLocalHead of a
+    higher answer (no lock).  Events [PEv] are the actions of Part 2; a schedule
+    made of [PEv] only is the machine of Part 2 (Proofs: prun_atomic). *)
+Definition slh_check (s : sstate) (h : hdr) : sstate * bool :=
+  let st := store_append (s_store s) h in
+  (SState st (s_pend s) (s_now s),
+   match st with Some sh => negb (h_height h <=? h_height sh) | None => true end).
+
+Definition slh_add (s : sstate) (h : hdr) : sstate :=
+  SState (s_store s) (pend_add (s_pend s) h) (s_now s).
+
+Record pstate := PState {
+  p_c : cstate;
+  p_g : option hdr;           (* gossip call parked before pending.Add (it holds incomingMu) *)
+  p_t : list (nat * hdr) }.   (* Head() calls parked before pending.Add *)
+
+Inductive pev :=
+| PEv (e : cev)
+| PGossipA (h : hdr)      (* verifier: verify (direct accept), store.Append, compare; park if an add is due *)
+| PGossipB (t : tans)     (* the parked verifier call resumes: pending.Add, subjectiveTail *)
+| PHeadA (i : nat)        (* caller i, higher GOk answer: store.Append, compare; park if an add is due *)
+| PHeadB (i : nat).       (* caller i resumes: pending.Add *)
+
+Definition parked_t (l : list (nat * hdr)) (i : nat) : bool := existsb (fun x => Nat.eqb (fst x) i) l.
+
+(** does the action need incomingMu? *)
+Definition uses_mu (c : cstate) (e : cev) : bool :=
+  match e with
+  | CGossip _ _ _ => true
+  | CStep i (IBif _) =>
+    match c_pc c i with PInc _ => true | PGot _ (GSoft _) => true | _ => false end
+  | _ => false
+  end.
+
+Definition blocked (ps : pstate) (e : cev) : bool :=
+  (match e with CStep i _ => parked_t (p_t ps) i | _ => false end) ||
+  (match p_g ps with Some _ => uses_mu (p_c ps) e | None => false end).
+
+Definition pstep (ps : pstate) (ev : pev) : pstate * list obs :=
+  let c := p_c ps in
+  match ev with
+  | PEv e =>
+    if blocked ps e then (ps, [])
+    else let '(c', o) := cstep c e in (PState c' (p_g ps) (p_t ps), o)
+  | PGossipA h =>
+    match p_g ps, local_head (c_s c) with
+    | None, Some sbj =>
+      match Verify (s_now (c_s c)) (p_drift p) tv sbj h with
+      | None =>
+        let '(s1, need) := slh_check (c_s c) h in
+        (PState (set_s c s1) (if need then Some h else None) (p_t ps), [])
+      | Some _ => (ps, [])     (* rejected or soft: use the atomic CGossip *)
+      end
+    | _, _ => (ps, [])
+    end
+  | PGossipB t =>
+    match p_g ps with
+    | Some h =>
+      let s1 := slh_add (c_s c) h in
+      let s2 := match t with TOk th => tail_apply s1 th | TFail => s1 end in
+      (PState (set_s c s2) None (p_t ps), [])
+    | None => (ps, [])
+    end
+  | PHeadA i =>
+    match c_pc c i with
+    | PGot (KStale sbj) (GOk nh) =>
+      if parked_t (p_t ps) i || h_nil nh || (h_height nh <=? h_height sbj) then (ps, [])
+      else
+        let '(s1, need) := slh_check (c_s c) nh in
+        (PState (CState s1 (c_f c) (upd (c_pc c) i (PUpd nh))) (p_g ps)
+                (if need then (i, nh) :: p_t ps else p_t ps), [])
+    | _ => (ps, [])
+    end
+  | PHeadB i =>
+    match find (fun x => Nat.eqb (fst x) i) (p_t ps) with
+    | Some (_, nh) =>
+      (PState (set_s c (slh_add (c_s c) nh)) (p_g ps)
+              (filter (fun x => negb (Nat.eqb (fst x) i)) (p_t ps)), [])
+    | None => (ps, [])
+    end
+  end.
+
+Fixpoint prun (ps : pstate) (l : list pev) : pstate * list obs :=
+  match l with
+  | [] => (ps, [])
+  | e :: r =>
+    let '(p1, o1) := pstep ps e in
+    let '(p2, o2) := prun p1 r in (p2, o1 ++ o2)
+  end.
+
+Definition pinit (s : sstate) : pstate := PState (cinit s) None [].
+
 End withtv.
 
 (** the schedule of n concurrent callers: all decide and enter the single flight
